@@ -40,6 +40,7 @@ def c01(run):
     run.trace(**corpus_job(run, 16))
     if not quick:
         run.trace(**corpus_job(run, 8))
+        run.traces_parallel(fresh_jobs(run) + goal_jobs(run, 16) + goal_jobs(run, 8), workers=6)
     if not quick:
         drive(run, "wide2", ["map:kv200:posfix:30:3000:wide", "map:kva64:tagfix:30:3000:wide", "map:k1v4:lowbit:12:2000:wide",
                              "map:kv16:seq:48:4000:basic"])
@@ -53,6 +54,39 @@ def corpus_job(run, W=16):
     """Replay of the TLC-generated behaviour corpus (spec -> impl), see bin/gen-corpus."""
     return {"name": "corpus_w%d" % W, "backend": "sse2" if W == 16 else "generic",
             "args": ["replay", "--seed", str(run.seed), os.path.join(vlib.VERIF, "corpus", "map_w%d.ndjson" % W)]}
+
+
+_fresh = {}
+
+
+def fresh_corpus(run):
+    """Thorough tier: a larger corpus generated from the specification during the run (seeded by VERIF_SEED), in addition
+    to the committed one."""
+    import subprocess
+    key = run.prop
+    if key in _fresh:
+        return _fresh[key]
+    out = os.path.join(vlib.WORK, "corpus_%s_%d" % (run.prop, os.getpid()))
+    p = subprocess.run([os.path.join(vlib.VERIF, "bin", "gen-corpus"), "--num", "240", "--depth", "90", "--out", out, "--seed", str(run.seed)],
+                       stdout=subprocess.PIPE, stderr=subprocess.STDOUT, text=True)
+    vlib.log("  fresh corpus: " + " | ".join(l for l in p.stdout.splitlines() if l.startswith("W=")))
+    if p.returncode != 0:
+        run.tool_error("gen-corpus failed: " + p.stdout[-1500:])
+        out = None
+    _fresh[key] = out
+    return out
+
+
+def fresh_jobs(run, fault=False):
+    out = fresh_corpus(run)
+    if not out:
+        return []
+    jobs = []
+    for W, be in ((16, "sse2"), (8, "generic")):
+        jobs.append({"name": "fresh_w%d" % W, "backend": be, "args": ["replay", "--seed", str(run.seed), os.path.join(out, "map_w%d.ndjson" % W)]})
+        if fault:
+            jobs.append({"name": "freshfault_w%d" % W, "backend": be, "args": ["replay", "--seed", str(run.seed), os.path.join(out, "map_w%d_fault.ndjson" % W)]})
+    return jobs
 
 
 def fault_corpus_job(run, W=16):
@@ -102,6 +136,8 @@ def generic_check(run, models_q, models_t, jobs_q, jobs_t, rule, corpus=False, f
         jl.append(fault_corpus_job(run, 16))
         if not quick:
             jl.append(fault_corpus_job(run, 8))
+    if not quick and (corpus or fault_corpus):
+        jl += fresh_jobs(run, fault=fault_corpus)
     run.traces_parallel(jl, workers=6)
     try:
         with open(os.path.join(vlib.VERIF, "corpus", "SUMMARY.json")) as f:
